@@ -289,8 +289,8 @@ impl Monitor for C18 {
         N_DIRECTED
             + match t {
                 Tier::Tiny => 20,
-                Tier::Quick => 30_000,
-                Tier::Thorough => 500_000,
+                Tier::Quick => 1800000,
+                Tier::Thorough => 18000000,
             }
     }
     fn rule(&self) -> &'static str {
